@@ -508,6 +508,15 @@ pub fn property() -> Property {
         id: "C11",
         subchecks: vec![
             SubCheck {
+                name: "public-strain-lists",
+                rule: "the strain lists that leave the library through strains() are plain lists: the list part of the C16 oracle (every peak finite and >= 0, equal lengths per mode; not the re-aggregation, which is C16's) on G-MAP maps incl. long breaks, empty and one-object maps and passed_objects(0|1) - an encoded zero run or a reinterpreted entry that leaks out of the compact list shows up as a negative subnormal or a short list. Non-trivial as in C16.",
+                quick: 6_000,
+                thorough: 60_000,
+                tape_len: 1500,
+                f: super::c16::case_lists_only,
+                direct: None,
+            },
+            SubCheck {
                 name: "strainsvec-model",
                 rule: "through the verif hook: 1-200 ops on StrainsVec: push(v) with v in {positive, +0.0, -0.0, negative, subnormal, +-NaN incl. payloads, +-inf, MAX, MIN_POSITIVE}, len, sum, iter().collect() with ExactSizeIterator::len checked at every step, clone().into_vec(), retain_non_zero, retain_non_zero_and_sort, sorted_non_zero_iter_mut with in-place scaling by a positive factor, sort_desc and transmute_into_vec only directly after a retain (their documented precondition). Reference model: Vec<f64> where push stores v iff v.to_bits()>0 && v.is_sign_positive(), else 0.0; every observation must be same-value-equal to the model's. Run on the default (compact) and on the raw_strains build, in the dev profile (has_zero debug assertions, overflow checks) and under AddressSanitizer. Non-trivial: a zero-class push adjacent to a positive push and >=1 retain/sort/transmute/iterate.",
                 quick: 30_000,
